@@ -79,6 +79,9 @@ Definition heavy_ok (n : nat) (l : list prog) : Prop :=
         dotn n (vecv s) (vecv s) = 1 /\ forall i, (i < n)%nat -> vecv s i * sqrt (dotn n u u) = u i) /\
     flag_iff (rrun k a (prog_at l 2)) (dotn n u u <= 4 * k Neps) /\
     flag_iff (rrun k a (prog_at l 1)) (Rabs (dotn n u u - 1) <= Rmax (dotn n u u) 1 * (4 * k Neps)) /\
+    (* is_magnitude_close_to(x), x = a n: |u|^2 and x^2 are equal up to 4 eps, absolutely or relatively *)
+    flag_iff (rrun k a (prog_at l 3)) (let m := dotn n u u in let x2 := a n * a n in
+        Rabs (m - x2) <= 4 * k Neps \/ Rabs (m - x2) <= Rmax m x2 * (4 * k Neps)) /\
     (* angle_between lies in [0, pi] and its cosine is the clamped dot product of the normalised vectors *)
     ret1 (rrun k a (prog_at l 4)) (fun ang => 0 <= ang <= PI /\
        cos ang = Rmin (Rmax (dotn n (fun i => u i / sqrt (dotn n u u)) (fun i => v i / sqrt (dotn n v v))) (-1)) 1) /\
